@@ -169,6 +169,7 @@ def programs(tier: str) -> list[dict]:
             rng, [(3,), (5,), (4, 3), (1, 3), (2, 3, 4), (2, 1, 3, 2), (3, 3, 3), (5, 5)], 250))
         progs += list(P.fam_einsum())
         progs += list(P.fam_csr(rng, 200))
+    progs += list(P.fam_concat_empty(with_user=False))
     # de-duplicate ids, tag every third instance with user tags on node and axis
     seen, out = set(), []
     for k, p in enumerate(progs):
